@@ -293,6 +293,16 @@ def switch_independence(ctx, nin):
         texts.append(text)
         jobs.append({"id": "off%d" % i, "db": "phreeqc.dat", "text": text, "flags": []})
         jobs.append({"id": "on%d" % i, "db": "phreeqc.dat", "text": text, "flags": ["out", "log", "selstr", "un=1", "un=3", "dump"]})
+    # read-outs of state that the printing routines touch (print_all resets the Peng-Robinson flags, recomputes density / volume ...):
+    # BASIC functions evaluated in a LATER step must not depend on whether the earlier step was printed
+    for k, (gas, si) in enumerate([("CO2(g)", 1.7), ("CH4(g)", 1.9), ("N2(g)", 2.0)]):
+        text = ("SOLUTION 1\n temp %d\n pH 7\n Na 1\n Cl 1\n C(4) 1\nEQUILIBRIUM_PHASES 1\n %s %g 10\nSELECTED_OUTPUT 1\n -reset false\n -high_precision true\n"
+                "USER_PUNCH 1\n -headings p phi si rho sc vol osm\n 10 PUNCH PR_P(\"%s\"), PR_PHI(\"%s\"), SI(\"%s\"), RHO, SC, SOLN_VOL, OSMOTIC\nSAVE solution 2\nEND\n"
+                "USE solution 1\nREACTION 1\n NaCl 1\n 0.001 0.002\nEND\nUSE solution 2\nREACTION_TEMPERATURE 1\n 40 60\nEND\n") % (25 + 15 * k, gas, si, gas, gas, gas)
+        texts.append(text)
+        jobs.append({"id": "off%d" % (nin + k), "db": "phreeqc.dat", "text": text, "flags": []})
+        jobs.append({"id": "on%d" % (nin + k), "db": "phreeqc.dat", "text": text, "flags": ["out", "log", "selstr", "un=1", "un=3", "dump"]})
+    nin = len(texts)
     res = vlib.run_inputs(jobs, timeout_each=60)
     for i in range(nin):
         a, b = res.get("off%d" % i, {}), res.get("on%d" % i, {})
